@@ -277,6 +277,7 @@ def writeframe_check(pid, tier, sc, rng):
         runs, dfs, errs = run_parallel(bindir, sc, "wf_" + mode.replace("+", "_"), cases, dfs_max, extra_args=["-writeframe"])
         out["errs"] += errs
         steps = nodes = nruns = 0
+        cands = []
         for r in runs:
             nruns += 1
             for l in r["lines"]:
@@ -285,12 +286,18 @@ def writeframe_check(pid, tier, sc, rng):
                     steps += int(f[3])
                     nodes += int(f[5])
             for tag, k, d in relevant(pid, r, known):
-                key = (k, d[:30])
-                if tag != "viol" or key in seen or len(out["violations"]) >= 3:
-                    continue
-                seen.add(key)
-                out["violations"].append(dict(property=pid, engine="conc", kind=k, observed=d, yield_points=mode, case=replay_case(r),
-                                              event_log=r["lines"][:400], seed=vlib.SEED, how="bin/check --replay <this file>"))
+                if tag == "viol":
+                    cands.append((len(r["sched"].split()), len(cands), k, d, r))
+        # shortest schedule first; one replay per written field (runts / values / next / children /
+        # membership / root) and yield mode
+        for _, _, k, d, r in sorted(cands, key=lambda c: c[:2]):
+            key = (k, d.split()[0], mode)
+            if key in seen or len(out["violations"]) >= 3:
+                continue
+            seen.add(key)
+            out["violations"].append(dict(property=pid, engine="conc", kind=k, observed=d, yield_points=mode, case=replay_case(r),
+                                          event_log=r["lines"][:400], seed=vlib.SEED, how="bin/check --replay <this file>"))
+        stats_viol = len(cands)
         for l in dfs:
             f = l.split()
             if "wfsteps" in f:        # counters over the runs of the dfs case that were not emitted
@@ -298,7 +305,7 @@ def writeframe_check(pid, tier, sc, rng):
                 steps += int(f[f.index("wfsteps") + 1])
                 nodes += int(f[f.index("wfnodes") + 1])
         stats["modes"][mode] = dict(cases=len(cases), runs=nruns, steps_checked=steps, nodes_compared=nodes,
-                                    dfs_cases=len(dfs), dfs_exhaustive=sum(1 for l in dfs if "exhaustive true" in l), dfs_max=dfs_max)
+                                    reports=stats_viol, dfs_cases=len(dfs), dfs_exhaustive=sum(1 for l in dfs if "exhaustive true" in l), dfs_max=dfs_max)
         stats["cases"] += len(cases)
         stats["runs"] += nruns
         stats["steps_checked"] += steps
